@@ -3894,9 +3894,10 @@ Definition w_pool_c : list op := [Accept; Swap 1; Run 1 true true; EndBatch 1; S
 Lemma W_pool :
   run false (init_sys 1 false) w_pool_a = Fault /\ run false (init_sys 1 false) w_pool_b = Fault /\ run false (init_sys 1 false) w_pool_c = Fault /\
   run true (init_sys 1 false) w_pool_a = Rejected /\ run true (init_sys 1 false) w_pool_b = Rejected /\ run true (init_sys 1 false) w_pool_c = Rejected /\
-  (* up to the last op nothing is wrong: UP delivered, no DOWN, connectDestroyed still queued, nothing of H2 in flight *)
+  (* up to the last op nothing is wrong: UP delivered, no DOWN, the connection held by the functor that just ran and by the
+     queued connectDestroyed only, the loop told to quit *)
   (exists s o k v, run false (init_sys 1 false) (firstn 8 w_pool_a) = Ok (s, o) /\ o = [OUp 1 0] /\ getc s 0 = Some k /\ k_st k = Connected /\
-     k_alive k = true /\ holders s 0 = 1 /\ getl s 1 = Some v /\ q_pend v = [TDestroy 0] /\ q_batch v = [] /\ q_drain v = true /\ s_stop s = 1 /\
+     k_alive k = true /\ holders s 0 = 2 /\ getl s 1 = Some v /\ q_pend v = [TDestroy 0] /\ q_batch v = [] /\ q_drain v = true /\ s_stop s = 1 /\
      step false s (EndBatch 1) = Fault) /\
   (* it is H7 that rejects it: the prefix is accepted under the hypotheses, H2's guard is silent, the io loop is inside a drain *)
   (exists s o, run true (init_sys 1 false) (firstn 6 w_pool_a) = Ok (s, o) /\ has_task is_remove s = false /\ has_task is_force s = false /\
@@ -3906,10 +3907,10 @@ Lemma W_pool :
      [Accept; Swap 1; Run 1 true true; EndBatch 1; LSend 0 true true; Swap 1; Run 1 true true; EndBatch 1; SrvDestroy; Swap 1; Run 1 true true; EndBatch 1] = Ok (s, o) /\
      o = [OUp 1 0; ODown 1 0; ODtor 1 0 true] /\ s_stop s = 2).
 Proof.
-  repeat split; try (vm_compute; reflexivity).
-  - vm_compute. eexists _, _, _, _. repeat split.
-  - vm_compute. eexists _, _. repeat split.
-  - vm_compute. eexists _, _. repeat split.
+  do 6 (split; [vm_compute; reflexivity|]).
+  split; [vm_compute; eexists _, _, _, _; repeat split|].
+  split; [vm_compute; eexists _, _; repeat split|].
+  vm_compute. eexists _, _. repeat split.
 Qed.
 
 (* H7 is the only thing strict mode adds to ~TcpServer besides H2 *)
